@@ -60,8 +60,9 @@ def ir_merge(target, other):
             ):
                 target_params[name]["default"] = other_params[name]["default"]
 
-        for name in other_params.keys() - target_params.keys():
-            target_params[name] = other_params[name]
+        for name in other_params.keys():
+            if name not in target_params:
+                target_params[name] = other_params[name]
 
         target["params"] = target_params
 
